@@ -1037,7 +1037,7 @@ def check_conc(pid, tier, seed, scratch, replay):
         docs = gen_docs(scratch, seed, every=53)
         log("source documents generated in %.1fs" % (time.time() - t_))
         t_ = time.time()
-        vlib.run_drive(drive_race, ["conc", "-out", tr, "-seed", str(seed), "-free", "150" if thorough else "30", "-rounds", "3" if thorough else "1"], timeout=3000,
+        vlib.run_drive(drive_race, ["conc", "-lean", "-out", tr, "-seed", str(seed), "-free", "150" if thorough else "30", "-rounds", "3" if thorough else "1"], timeout=3000,
                        env={"GORACE": "log_path=%s exitcode=0 halt_on_error=0" % racelog, "VERIF_EXTRA_DOCS": docs, "VERIF_CONC_EVERY": 1 if thorough else 3,
                             "VERIF_PLAIN_DRIVE": drive})
         log("free-running scenarios under the race detector done in %.1fs" % (time.time() - t_))
